@@ -287,7 +287,8 @@ TIE_NAMES = {'encode_varint': 'utils.encode_varint', 'prepend_compact_size': 'ut
              'tapleaf_tagged_hash': 'utils.tapleaf_tagged_hash (modulo Script.to_bytes)',
              'block_header': 'BlockHeader.get_target_bits / serialize_header / get_block_hash',
              'tx_parts': 'TxOutput.to_bytes and TxInput.to_bytes (modulo Script.to_bytes)',
-             'tx_whole': 'TxWitnessInput.to_bytes and Transaction.to_bytes (loops included)'}
+             'tx_whole': 'TxWitnessInput.to_bytes and Transaction.to_bytes (loops included)',
+             'tx_ids': 'Transaction.get_txid / _get_hash (get_wtxid) / get_size'}
 
 
 def with_ties(ties, level_text, level_note, technique):
